@@ -128,7 +128,9 @@ def _f02c(pid, cfg, tr, v):
     k = v[1]
     if k < 1 or k > len(tr.frames):
         return False
-    victims = set(e[2] for e in _events(tr, v, ('Preempt',))) | set(e[2] for e in _events(tr, v, ('Interrupt',)))
+    # only PRIORITY pre-emption detaches the server (ind.server = False) and so lets the victim renege again; a customer
+    # interrupted by a shift change keeps a (dead) server reference and is never a renege candidate on the unchanged tree
+    victims = set(e[2] for e in _events(tr, v, ('Preempt',)))
     snap = tr.frames[k - 1]['snap']
     now = tr.frames[k - 1]['now']
     if pid == 'C02' and not (v[2] in (1, 2)):
